@@ -102,8 +102,9 @@ def edge_facts(cfg, a, b):
     return out
 
 
-def guarded_by(cfg, target_block, establishes, entry=None):
-    """True iff every path entry -> target_block crosses an edge for which establishes(facts) is true.
+def guarded_by(cfg, target_block, establishes, entry=None, through=()):
+    """True iff every path entry -> target_block crosses an edge for which establishes(facts) is true, or a block of
+    'through' (a block whose execution establishes the guard, e.g. a call of a helper that returns only when it holds).
     Returns (ok, unguarded_path) ; path is a list of block ids when not ok"""
     entry = cfg.entry if entry is None else entry
     # BFS avoiding establishing edges
@@ -117,6 +118,8 @@ def guarded_by(cfg, target_block, establishes, entry=None):
                 path.append(x)
                 x = prev[x]
             return False, list(reversed(path))
+        if x in through:
+            continue
         for s in cfg.succ[x]:
             if s in prev:
                 continue
@@ -509,6 +512,7 @@ def loop_local_decls(fn, cfg, body):
 def _path_feasible(fn, cfg, path):
     """cheap infeasibility filter: boolean locals with a known literal value along the path must agree with the branch taken"""
     env = {}
+    snap = {}          # local id -> text of the expression it was initialised with on this path (a snapshot such as X.size())
     for a, b in zip(path, path[1:]):
         for e in cfg.blocks[a]["el"]:
             n = fn.nodes.get(e)
@@ -518,6 +522,8 @@ def _path_feasible(fn, cfg, path):
                 for d in n["decls"]:
                     if d.get("ty") == "bool" and d.get("init") is not None and strip(d["init"])["k"] == "CXXBoolLiteralExpr":
                         env[d["id"]] = bool(strip(d["init"])["val"])
+                    elif d.get("init") is not None and (d.get("ty") or "").startswith("const ") and any(is_call(x) and x["callee"].get("const") for x in walk(d["init"])):
+                        snap[d["id"]] = render(d["init"])
             elif n["k"] == "BinaryOperator" and n["op"] == "=":
                 l = strip(kids(n)[0])
                 if l["k"] == "DeclRefExpr" and l["decl"].get("ty") == "bool":
@@ -530,6 +536,15 @@ def _path_feasible(fn, cfg, path):
             nd = strip(nd)
             if nd["k"] == "DeclRefExpr" and nd["decl"]["id"] in env and env[nd["decl"]["id"]] != tr:
                 return False
+            # a snapshot compared with the expression it was taken from: the path under test writes nothing that outlives the
+            # iteration, so both sides are equal ('X.size() != sizeBefore' is false on it)
+            if nd["k"] == "BinaryOperator" and nd.get("op") in ("==", "!=", "<", ">", "<=", ">="):
+                l_, r_ = strip(kids(nd)[0]), strip(kids(nd)[1])
+                for x_, y_ in ((l_, r_), (r_, l_)):
+                    if x_["k"] == "DeclRefExpr" and x_["decl"]["id"] in snap and snap[x_["decl"]["id"]] == render(y_):
+                        val = nd["op"] in ("==", "<=", ">=")
+                        if val != tr:
+                            return False
     return True
 
 
